@@ -339,7 +339,7 @@ def run_bind(ck, report, replay=None):
         for sig, calls in _corpus():
             fix_src(rng, sig, calls)
             cases.append((sig, calls))
-        n_sig = 400 if ck.tier == "quick" else 9000
+        n_sig = 400 if ck.tier == "quick" else 6000
         n_calls = 5 if ck.tier == "quick" else 6
         for _ in range(n_sig):
             sig = gen_sig(rng)
@@ -643,7 +643,7 @@ def uses_default(sig: Sig, c: Call):
 
 def run_bind_e2e(ck, report):
     rng = ck.rng
-    n_sig = 36 if ck.tier == "quick" else 400
+    n_sig = 36 if ck.tier == "quick" else 300
     programs = []
     # regression corpus: the shapes of the two findings + upstream fn_j
     corpus = [
@@ -811,7 +811,7 @@ def predict_dispatch_reject(T, l, r, op, rop, is_cmp, is_eq):
 
 def run_dispatch_e2e(ck, report):
     rng = ck.rng
-    n_tab = 10 if ck.tier == "quick" else 150
+    n_tab = 10 if ck.tier == "quick" else 100
     programs = []
     fixed = [
         [(None, {0: []}), (0, {1: []})],                       # C10_dispatch_refuted
@@ -1623,7 +1623,7 @@ DIFF_CORPUS = [
 
 def run_diff(ck, report):
     rng = ck.rng
-    n_prog = 24 if ck.tier == "quick" else 320
+    n_prog = 24 if ck.tier == "quick" else 250
     per = 5
     programs = []
     ks = {"k%d" % j: 1 + j for j in range(8)}
